@@ -48,6 +48,7 @@ EXPLANATION = (
   " (TERM-refs) merge_chained_styles takes a style reference out of the element's list before it follows it, so a cycle of style references ends instead of recursing until RecursionError;"
   + " (PRUNE-sites) every `return None` of ISD._process_element is one of the grounds for leaving an element out of a snapshot - inactive at the offset, another region, display=none, the final emptiness rule; any other site, evaluated over every element kind with and without children, drops only what the final rule would drop (never an element with children, never an empty part of a ruby container);"
   + " (DSP-units, shared with C03) _compute_length converts every relative unit and returns root-relative lengths (rh, rw) unchanged;"
+  + " (LIVE-alias) a model method that iterates a list-backed view of `self` while adding to the same list of another parameter declared with its own class (copy_to) first returns when that parameter is the object itself: `x.copy_to(x)` ends;"
 )
 RULE_TEXT = "per function / class / dereference / extraction site / raise statement"
 UNDECIDED = ["termination", "RecursionError (input-depth recursion exists in from_xml, dfs_iterator, _process_element)", "TypeError / AssertionError guarded by data-dependent invariants",
@@ -244,6 +245,8 @@ def check_optional_fields(ctx):
 
 
 def run(ctx):
+  from ..rules import live as _live_a
+  ctx.floor("LIVE-alias", "loops of the model that read a view of self and fill another object of the same class", _live_a.check_live_self_alias(ctx, ctx.ix.funcs_in("ttconv.model")), 3)
   from . import c03 as _c03u
   _c03u.check_units(ctx)
   from ..rules import isdrules as _isdr
